@@ -74,6 +74,15 @@ VecApi == {
   E("UnitQuaternion*", "class", << {3} >>)
 }
 
+\* entries whose arguments are matrices (group members, algebra elements, point sets): C17 only
+MatApi == {"t2r", "r2t", "tr2rt", "rt2tr", "trinv", "trinv2", "trlog(R)", "trlog(T)", "trlog2(R)", "trlog2(T)",
+           "trexp(so3)", "trexp(se3)", "trexp2(se2)", "trnorm(R)", "trnorm(T)", "trnorm2", "tr2rpy", "tr2eul",
+           "tr2angvec", "tr2xyt", "tr2delta(T)", "tr2delta(T0,T1)", "tr2jac", "trinterp", "trinterp2", "vex", "vexa",
+           "h2e", "e2h", "homtrans", "isR", "isrot", "ishom", "isrot2", "ishom2", "isskew", "isskewa", "iseye",
+           "r2q", "transl(T)", "transl2(T)", "Ab2M", "adjoint", "det", "trprint", "trprint2",
+           "SO3(R)", "SE3(T)", "SO2(R)", "SE2(T)", "UnitQuaternion(R)", "Twist3(se3)", "Twist2(se2)",
+           "SE3([T,T])", "SO3([R,R])", "SE3*points", "SO3*points", "SE2*points", "UnitQuaternion*points"}
+
 FormsOf(layer) == IF layer = "base" THEN {"list", "tuple", "array", "row", "column"}
                   ELSE {"list", "tuple", "array"}
 ElemTypes == {"int", "float"}
@@ -124,6 +133,11 @@ OrderCall(n, o) ==
   /\ call' = [op |-> "order", name |-> n, order |-> o]
   /\ expect' = IF o \in GoodOrders THEN "accept" ELSE "reject"
 
+MatCall(n) ==
+  /\ call.op = "none"
+  /\ call' = [op |-> "mat", name |-> n]
+  /\ expect' = "arguments-unchanged"
+
 ScalarCall(n) ==
   /\ call.op = "none"
   /\ call' = [op |-> "scalars", name |-> n]
@@ -137,10 +151,11 @@ Next ==
   \/ \E n \in UnitIn : \E u \in BadUnits : BadUnitCall(n, u)
   \/ \E n \in OrderIn : \E o \in GoodOrders \cup BadOrders : OrderCall(n, o)
   \/ \E n \in ScalarForms : ScalarCall(n)
+  \/ \E n \in MatApi : MatCall(n)
 
 Spec == Init /\ [][Next]_vars
 
-Names == { e.name : e \in VecApi } \cup UnitIn \cup UnitOut \cup OrderIn \cup ScalarForms
+Names == { e.name : e \in VecApi } \cup UnitIn \cup UnitOut \cup OrderIn \cup ScalarForms \cup MatApi
 TableSanity ==
   /\ \A e \in VecApi : Len(e.dims) \in 1..2 /\ \A k \in DOMAIN e.dims : e.dims[k] # {} /\ e.dims[k] \subseteq 0..8
   /\ \A e1, e2 \in VecApi : e1.name = e2.name => e1 = e2
